@@ -64,9 +64,10 @@ def main():
         if f"\npackage {cand}\n" in first or f"\npackage {cand}_test\n" in first:
             sub = cand
     demo_dst = f"{wt}/{sub}/zz_seed_demo_test.go" if sub != "." else f"{wt}/zz_seed_demo_test.go"
-    run_demo = f"go test -vet=off -count=5 -timeout 300s -run 'TestSeed' ./{sub}"
+    pat = a[a.index("--run") + 1] if "--run" in a else "TestSeed"
+    run_demo = f"go test -vet=off -count=5 -timeout 300s -run '{pat}' ./{sub}"
     if "--race" in a:
-        run_demo = f"go test -race -vet=off -count=3 -timeout 600s -run 'TestSeed' ./{sub}"
+        run_demo = f"go test -race -vet=off -count=3 -timeout 600s -run '{pat}' ./{sub}"
     # 1. clean + demo
     shutil.copy(demo, demo_dst)
     rc, out = sh(run_demo, wt)
